@@ -12,7 +12,7 @@ from scipy.spatial import ConvexHull
 
 from .polyhedron import Polyhedron
 from .sphere import Sphere
-from .utils import translate_inertia_tensor
+from .utils import _validate_scale, translate_inertia_tensor
 
 
 class ConvexPolyhedron(Polyhedron):
@@ -270,6 +270,7 @@ class ConvexPolyhedron(Polyhedron):
                 Multiplier to scale edges by. Volume and surface area setters preconvert
                 the scale_factor to the correct value for the desired property.
         """
+        _validate_scale(scale_factor)
         self._vertices *= scale_factor
         self._equations[:, 3] *= scale_factor
         self._simplex_equations[:, 3] *= scale_factor
